@@ -11,10 +11,10 @@ COPYRIGHTS = ['Copyright (c) me', '(c) A\nline two\n\n  indented', '', 'x */ #in
               'tab\tsep\x0cform feed', '// already a comment']
 
 
-def spell_uniform(draw, sem, names):
+def spell_uniform(draw, sem, names, explicit=False):
     """Selections (sts, mts) that give every port of `names` the semantics `sem`."""
     forms = ['ALL', 'REMAINING'] + (['EXPLICIT'] if names else [])
-    form = draw(st.sampled_from(forms))
+    form = 'EXPLICIT' if (explicit and names) else draw(st.sampled_from(forms))
     if form == 'EXPLICIT':
         mine = draw(st.permutations(names))
         other = 'NONE'
@@ -24,7 +24,7 @@ def spell_uniform(draw, sem, names):
         (other, list(mine) if isinstance(mine, (list, tuple)) else mine)
 
 
-def spell_partition(draw, assign):
+def spell_partition(draw, assign, explicit=False):
     """Selections (sts, mts) for an arbitrary {port: sem} assignment (requires side)."""
     sts = [p for p, s in assign.items() if s == 'STS']
     mts = [p for p, s in assign.items() if s == 'MTS']
@@ -32,10 +32,10 @@ def spell_partition(draw, assign):
         return draw(st.sampled_from([('ALL', 'NONE'), ('NONE', 'ALL'), ('REMAINING', 'NONE'),
                                      ('NONE', 'REMAINING')]))
     if not mts:
-        return spell_uniform(draw, 'STS', sts)
+        return spell_uniform(draw, 'STS', sts, explicit)
     if not sts:
-        return spell_uniform(draw, 'MTS', mts)
-    form = draw(st.sampled_from(['both', 'sts+rem', 'rem+mts']))
+        return spell_uniform(draw, 'MTS', mts, explicit)
+    form = 'both' if explicit else draw(st.sampled_from(['both', 'sts+rem', 'rem+mts']))
     if form == 'both':
         return list(draw(st.permutations(sts))), list(draw(st.permutations(mts)))
     if form == 'sts+rem':
@@ -44,7 +44,7 @@ def spell_partition(draw, assign):
 
 
 @st.composite
-def valid_spec(draw, sm, want_mc=None, want_mixed=None):
+def valid_spec(draw, sm, want_mc=None, want_mixed=None, explicit=False):
     table = gen_shell.port_table(sm)
     prov = [p['name'] for p in table if p['dir'] == 'provides']
     req = [p['name'] for p in table if p['dir'] == 'requires' and not p['injected']]
@@ -56,12 +56,12 @@ def valid_spec(draw, sm, want_mc=None, want_mixed=None):
         grant = draw(st.sampled_from(enum['elem']['fields']))
         mc = {'port': port, 'claim': claim['name'], 'grant': [grant], 'release': release['name']}
     psem = 'MTS' if use_mc else draw(st.sampled_from(['STS', 'MTS']))
-    psts, pmts = spell_uniform(draw, psem, prov)
+    psts, pmts = spell_uniform(draw, psem, prov, explicit)
     if want_mixed and len(req) >= 2:
         assign = {p: ('STS' if i % 2 == 0 else 'MTS') for i, p in enumerate(req)}
     else:
         assign = {p: draw(st.sampled_from(['STS', 'MTS'])) for p in req}
-    rsts, rmts = spell_partition(draw, assign)
+    rsts, rmts = spell_partition(draw, assign, explicit)
     decl_names = {e['name'][-1] for e in _scope_elems(sm)}
     base = draw(st.sampled_from(BASE_POOL))
     suffix = draw(st.sampled_from(SUFFIX_POOL))
@@ -87,10 +87,11 @@ def _scope_elems(sm):
 
 
 @st.composite
-def model_and_spec(draw, force=None, want_mc=None, want_mixed=None, collide=False):
+def model_and_spec(draw, force=None, want_mc=None, want_mixed=None, collide=False,
+                   explicit=False):
     feats = list(force or [])
     if want_mc:
         feats.append('mc_ready')
     sm = draw(gen_shell.shell_model(force=feats, collide=collide))
-    vs = draw(valid_spec(sm, want_mc=want_mc, want_mixed=want_mixed))
+    vs = draw(valid_spec(sm, want_mc=want_mc, want_mixed=want_mixed, explicit=explicit))
     return {'sm': sm, 'spec': vs['spec'], 'semantics': vs['semantics']}
